@@ -26,6 +26,17 @@ pub fn analyze_trait(item_trait: syn::ItemTrait) -> syn::Result<OutTrait> {
     for item in item_trait.items.into_iter() {
         match item {
             syn::TraitItem::Fn(method) => {
+                for fn_arg in method.sig.inputs.iter() {
+                    if let syn::FnArg::Typed(pat_type) = fn_arg {
+                        if !matches!(pat_type.pat.as_ref(), syn::Pat::Ident(_)) {
+                            return Err(syn::Error::new(
+                                pat_type.pat.span(),
+                                "Entrait needs a plain identifier for this parameter, in order to delegate the method.",
+                            ));
+                        }
+                    }
+                }
+
                 let originally_async = method.sig.asyncness.is_some();
 
                 let entrait_sig = EntraitSignature::new(method.sig);
